@@ -7,7 +7,7 @@ BUILD = os.path.join(VERIF, "build")
 COQ = os.path.join(VERIF, "coq")
 BIN = os.path.join(BUILD, "bin")
 DRIVER = os.path.join(BUILD, "ocaml", "driver")
-IMPLRUN = os.path.join(BIN, "implrun")
+IMPLRUN = os.path.join(BIN, "ov_implrun")
 NCPU = os.cpu_count() or 4
 
 TRUSTED_BASE = [
@@ -78,7 +78,7 @@ def build_all(need_overlay=False):
         except OSError:
             pass
         # 1. harness binaries (built from /repo's working tree through the replace directive)
-        for name in sorted(os.listdir(os.path.join(hdir, "cmd"))):
+        for name in sorted(os.listdir(os.path.join(hdir, "cmd")) if os.path.isdir(os.path.join(hdir, "cmd")) else []):
             rc, out = sh(["go", "build", "-o", os.path.join(BIN, name), "./cmd/" + name], cwd=hdir, env=env)
             if rc != 0:
                 br.go_ok = False
